@@ -522,6 +522,11 @@ class ContainerValue:
             "list_value": ListValue,
             "map_or_list_value": MapOrListValue,
         }
+        if not isinstance(spec, dict):
+            raise TypeError(
+                f"Container item specification must be a dict, but found: {spec!r}."
+            )
+        spec = dict(spec)  # arguments are popped below; leave the caller's spec unchanged
         container_type = spec.pop("type", "map_or_list_value")
         try:
             cls = CLS_LOOKUP[container_type]
